@@ -1,9 +1,83 @@
 import Drivers.Proto
-/-! Model driver for property C13 (stub: no model operations registered yet). -/
-open Lean Proto
+import St4sd.Model.Repeat
+/-! Model driver for property C13 (repeating-engine poll protocol). -/
+open Lean Proto St4sd.Repeat
+
+def getBoolD (j : Json) (k : String) (d : Bool) : Bool :=
+  match j.getObjVal? k with
+  | .ok (Json.bool b) => b
+  | _ => d
+
+def parseCfg (j : Json) : Except String Cfg := do
+  let c ← j.getObjVal? "cfg"
+  return { retries := ← getNat c "retries", dieAfter := getBoolD c "dieAfter" false,
+           noProd := getBoolD c "noProd" false, alwaysNew := getBoolD c "alwaysNew" false,
+           preOutput := getBoolD c "preOutput" false, guardNone := getBoolD c "guardNone" true,
+           killOnSuicidePoll := getBoolD c "killOnSuicidePoll" true }
+
+def parseEv (s : String) : Except String Ev :=
+  match s with
+  | "fin" => pure .fin | "out" => pure .out | "kill" => pure .kill | "die" => pure .die | "adv" => pure .adv
+  | _ => throw s!"unknown event {s}"
+
+def parseOutcome (s : String) : Except String Outcome :=
+  match s with
+  | "ok" => pure .ok | "fail" => pure .fail | "raise" => pure .raised
+  | _ => throw s!"unknown outcome {s}"
+
+def getEvs (j : Json) (k : String) : Except String (List Ev) :=
+  match j.getObjVal? k with
+  | .ok (Json.arr a) => a.toList.mapM (fun x => do parseEv (← x.getStr?))
+  | _ => pure []
+
+def parseIter (j : Json) : Except String Iter := do
+  let o ← match j.getObjVal? "outcome" with
+    | .ok (Json.str s) => parseOutcome s
+    | _ => pure Outcome.ok
+  return { gap := ← getEvs j "gap", s0 := ← getEvs j "s0", s1 := ← getEvs j "s1", s2 := ← getEvs j "s2",
+           s3 := ← getEvs j "s3", s4 := ← getEvs j "s4", out := o }
+
+def evName : Ev → String
+  | .fin => "fin" | .out => "out" | .kill => "kill" | .die => "die" | .adv => "adv"
+def outName : Outcome → String
+  | .ok => "ok" | .fail => "fail" | .raised => "raise"
+def opName : Op → String
+  | .env e => "e:" ++ evName e
+  | .eng o => "g:" ++ outName o
+def parseOp (s : String) : Except String Op :=
+  if s.startsWith "e:" then do return .env (← parseEv (s.drop 2).toString)
+  else if s.startsWith "g:" then do return .eng (← parseOutcome (s.drop 2).toString)
+  else throw s!"bad op {s}"
+
+def causeName : Option Cause → Json
+  | none => Json.null
+  | some .success => jstr "success" | some .retries => jstr "retries"
+  | some .external => jstr "external" | some .killDelay => jstr "killDelay"
+
+def snap (s : St) : Json :=
+  jobj [("launches", jnat s.execLog.length), ("retries", jnat s.retries), ("cancel", jbool s.cancel),
+        ("alive", jbool (alive s)), ("kc", jbool s.kc), ("suicide", jbool s.suicide),
+        ("consume", jbool s.consume), ("fin", jbool s.prodDone)]
+
+def summary (s : St) : List (String × Json) :=
+  [("final", snap s), ("stopped", jbool (s.pc = .stopped)),
+   ("execs", jarr (s.execLog.reverse.map fun e =>
+      jobj [("afterFinal", jbool (!s.hasOutput || decide (s.lastOutput < e.launch))), ("pdws", jbool e.pdws)])),
+   ("cause", causeName s.cause), ("pollsFin", jnat s.pollsFin), ("books", jnat s.books)]
 
 def handle (j : Json) : Except String Json := do
   let op ← getStr j "op"
-  throw s!"unknown op {op}"
+  match op with
+  | "script" =>
+    let cfg ← parseCfg j
+    let its ← (← getArr j "iters").mapM parseIter
+    let (ss, ops) := runScript cfg (init cfg) its
+    let fin := ss.getLast?.getD (init cfg)
+    return jobj ([("snaps", jarr (ss.map snap)), ("flat", jarr (ops.map (jstr ∘ opName)))] ++ summary fin)
+  | "flat" =>
+    let cfg ← parseCfg j
+    let ops ← (← getStrList j "ops").mapM parseOp
+    return jobj (summary (exec cfg ops))
+  | _ => throw s!"unknown op {op}"
 
 def main : IO Unit := serve handle
